@@ -4,19 +4,29 @@
 From Coq Require Import Ascii String List Bool Arith ZArith NArith Lia.
 From PTBase Require Import Exn PyStr PyNum PyVal Fmt FixedFormat.
 From Gen Require Import GenTables GenSections.
-From P Require Import Comb Obj Fields Sections SectionsB Rec SecRocks SecMesh SecGener SecMisc SecParam SecHist SecSel T2DataIO.
+From P Require Import Comb Obj Fields Sections SectionsB Rec SecRocks SecMesh SecGener SecMisc SecParam SecHist SecSel SecShort SecMeshm T2DataIO.
 Import ListNotations.
 Open Scope string_scope.
 
-(** the sections whose round trip is a theorem *)
-Definition covered : list string :=
+(** the sections whose round trip is a theorem: all 23 kinds *)
+Definition covered21 : list string :=
   ["SIMUL"; "ROCKS"; "PARAM"; "MOMOP"; "START"; "NOVER"; "RPCAP"; "LINEQ"; "SOLVR"; "MULTI"; "TIMES"; "ELEME"; "CONNE"; "GENER"; "INCON";
    "SELEC"; "DIFFU"; "FOFT"; "COFT"; "GOFT"; "INDOM"].
+Definition covered : list string := covered21 +++ ["SHORT"; "MESHM"].
+(** ... which are exactly the keywords of the regenerated t2data_sections *)
+Lemma covered_all k : In k t2data_sections <-> In k covered.
+Proof.
+  assert (A : forallb (fun x => existsb (String.eqb x) covered) t2data_sections = true) by (vm_compute; reflexivity).
+  assert (B : forallb (fun x => existsb (String.eqb x) t2data_sections) covered = true) by (vm_compute; reflexivity).
+  rewrite forallb_forall in A, B. split; intro H.
+  - apply A in H. apply existsb_exists in H as [y [I E]]. apply String.eqb_eq in E. subst. exact I.
+  - apply B in H. apply existsb_exists in H as [y [I E]]. apply String.eqb_eq in E. subst. exact I.
+Qed.
 
 (** ** the regenerated tables and dispatch dictionaries have the shape the theorems need *)
 Definition tables_ok : bool :=
   rocks_table_ok T0 && blocks_table_ok T0 && conns_table_ok T0 && gener_table_ok T0 && incon_table_ok T0 &&
-  momop_table_ok T0 && times_table_ok T0 && simul_table_ok T0 && param_table_ok T0 && selec_table_ok T0.
+  momop_table_ok T0 && times_table_ok T0 && simul_table_ok T0 && param_table_ok T0 && selec_table_ok T0 && short_table_ok T0 && meshm_table_ok T0.
 Lemma tables_ok_true : tables_ok = true.
 Proof. vm_compute. reflexivity. Qed.
 
@@ -47,6 +57,8 @@ Definition supd (k : string) (d d0 : t2d) : t2d :=
   else if k =? "COFT" then set_hist_conn d0 (hist_conn d)
   else if k =? "GOFT" then set_hist_gen d0 (hist_gen d)
   else if k =? "INDOM" then set_indom d0 (canon_indom T0 (indom d))
+  else if k =? "SHORT" then match short d with Some s => set_short d0 (Some (canon_short s)) | None => d0 end
+  else if k =? "MESHM" then set_meshmaker d0 (map (canon_mm T0) (meshmaker d))
   else d0.
 
 (** what section k of [d] must satisfy for the reader in state [d0] *)
@@ -85,6 +97,8 @@ Definition secwf (k : string) (d d0 : t2d) : bool :=
   else if k =? "COFT" then nonempty (hist_conn d) && forallb hpair_ok (hist_conn d) && forallb (keep_conn d0) (hist_conn d)
   else if k =? "GOFT" then nonempty (hist_gen d) && forallb hname_ok (hist_gen d) && forallb (keep_block d0) (hist_gen d)
   else if k =? "INDOM" then nonempty (indom d) && forallb (wf_indom1) (indom d) && negb (nonempty (indom d0))
+  else if k =? "SHORT" then match short d with Some s => wf_short d0 s && negb (isSome (short d0)) | None => false end
+  else if k =? "MESHM" then nonempty (meshmaker d) && forallb (wf_mm T0) (meshmaker d) && negb (nonempty (meshmaker d0))
   else false.
 
 (** the call the keyword loop makes for keyword k (no extra-precision companion) *)
@@ -196,19 +210,27 @@ Lemma disp_INDOM d0 line r : dispatch d0 "INDOM" line r = lift (read_indom T0 d0
 Proof. reflexivity. Qed.
 Lemma wsec_INDOM d : wsec d "INDOM" = write_indom T0 d.
 Proof. reflexivity. Qed.
+Lemma disp_SHORT d0 line r : dispatch d0 "SHORT" line r = lift (read_short T0 d0 line r).
+Proof. reflexivity. Qed.
+Lemma wsec_SHORT d : wsec d "SHORT" = write_short d.
+Proof. reflexivity. Qed.
+Lemma disp_MESHM d0 line r : dispatch d0 "MESHM" line r = lift (read_meshmaker T0 d0 r).
+Proof. reflexivity. Qed.
+Lemma wsec_MESHM d : wsec d "MESHM" = write_meshmaker T0 d.
+Proof. reflexivity. Qed.
 (** ** one section: the writer's lines start with the keyword line, the reader consumes exactly them *)
 Definition plain (k : string) : bool := negb (k =? "PARAM").
-Theorem section_step k d d0 lines : In k covered -> wsec d k = Ok lines -> secwf k d d0 = true ->
+Theorem section_step21 k d d0 lines : In k covered21 -> wsec d k = Ok lines -> secwf k d d0 = true ->
   exists body, lines = kw k :: body /\
     if plain k then forall line rest, dispatch d0 k line (body ++ rest)%list = Ok (supd k d d0, None, rest)
     else forall line nextl rest, next_ok0 nextl = true ->
          dispatch d0 k line (body ++ nextl :: rest)%list = Ok (supd k d d0, Some (padstring nextl), rest).
 Proof.
-  pose proof tables_ok_true as TK. unfold tables_ok in TK. apply andb_prop in TK as [TK K10].
+  pose proof tables_ok_true as TK. unfold tables_ok in TK. apply andb_prop in TK as [TK _]. apply andb_prop in TK as [TK _]. apply andb_prop in TK as [TK K10].
   apply andb_prop in TK as [TK K9]. apply andb_prop in TK as [TK K8]. apply andb_prop in TK as [TK K7].
   apply andb_prop in TK as [TK K6]. apply andb_prop in TK as [TK K5]. apply andb_prop in TK as [TK K4].
   apply andb_prop in TK as [TK K3]. apply andb_prop in TK as [K1 K2].
-  intros IN W WF. unfold covered in IN. cbn [In] in IN.
+  intros IN W WF. unfold covered21 in IN. cbn [In] in IN.
   repeat (destruct IN as [IN|IN]; [subst k|]); [..|contradiction];
     unfold secwf in WF; cbn [String.eqb Ascii.eqb Bool.eqb] in WF;
     unfold plain, supd; cbn [String.eqb Ascii.eqb Bool.eqb negb].
@@ -373,14 +395,56 @@ Lemma covered_in k : existsb (String.eqb k) covered = true -> In k covered.
 Proof. intro H. apply existsb_exists in H as [x [I E]]. apply String.eqb_eq in E. subst. exact I. Qed.
 
 (** facts about a covered keyword line, by computation on the regenerated lists *)
-Lemma kw_facts k : In k covered ->
-  strip (slice 0 5 (kw k)) = s2l k /\ strip (slice 0 5 (padstring (kw k))) = s2l k /\
-  in_str (s2l k) end_kws = false /\ in_str (s2l k) all_sections = true /\
-  slookup (s2l k) read_fn_names = Some (rname k) /\ next_ok0 (kw k) = true /\
-  (exists c l, padstring (kw k) = c :: l) /\ (exists c l, kw k = c :: l).
+Definition kwline (k : string) (l0 : str) : Prop :=
+  strip (slice 0 5 l0) = s2l k /\ strip (slice 0 5 (padstring l0)) = s2l k /\ next_ok0 l0 = true /\
+  (exists c l, padstring l0 = c :: l) /\ (exists c l, l0 = c :: l).
+Lemma kwline_kw k : In k covered21 -> kwline k (kw k).
 Proof.
-  intro IN. unfold covered in IN. cbn [In] in IN.
+  intro IN. unfold covered21 in IN. cbn [In] in IN. unfold kwline.
   repeat (destruct IN as [IN|IN]; [subst k; vm_compute; repeat split; eauto|]). contradiction.
+Qed.
+Lemma key_facts k : In k covered ->
+  in_str (s2l k) end_kws = false /\ in_str (s2l k) all_sections = true /\ slookup (s2l k) read_fn_names = Some (rname k).
+Proof.
+  intro IN. unfold covered, covered21 in IN. cbn [In app] in IN.
+  repeat (destruct IN as [IN|IN]; [subst k; vm_compute; repeat split; eauto|]). contradiction.
+Qed.
+Lemma kwline_short f : kwline "SHORT" (header_of f).
+Proof.
+  unfold kwline, header_of, padstring, ljust. cbn [s2l list_ascii_of_string app].
+  repeat split; try reflexivity; eauto.
+Qed.
+Lemma kwline_meshm : kwline "MESHM" (kw "MESHMAKER").
+Proof. unfold kwline. vm_compute. repeat split; eauto. Qed.
+
+(** every section kind: the writer's first line is its keyword line; the reader, given that line
+    (as read, or padded when it was the PARAM look-ahead), consumes exactly the rest *)
+Theorem section_step k d d0 lines : In k covered -> wsec d k = Ok lines -> secwf k d d0 = true ->
+  exists l0 body, lines = l0 :: body /\ kwline k l0 /\
+    if plain k then forall line rest, line = l0 \/ line = padstring l0 ->
+                    dispatch d0 k line (body ++ rest)%list = Ok (supd k d d0, None, rest)
+    else forall line nextl rest, next_ok0 nextl = true ->
+         dispatch d0 k line (body ++ nextl :: rest)%list = Ok (supd k d d0, Some (padstring nextl), rest).
+Proof.
+  intros IN W WF. unfold covered in IN. apply in_app_or in IN as [IN|IN].
+  - destruct (section_step21 k d d0 lines IN W WF) as [body [E ST]]. exists (kw k), body.
+    split; [exact E|]. split; [apply kwline_kw; exact IN|].
+    destruct (plain k); [intros line rest _; apply ST|exact ST].
+  - pose proof tables_ok_true as TK. unfold tables_ok in TK. apply andb_prop in TK as [TK KM]. apply andb_prop in TK as [_ KS].
+    cbn [In] in IN. destruct IN as [IN|[IN|IN]]; [subst k|subst k|contradiction];
+      unfold secwf in WF; cbn [String.eqb Ascii.eqb Bool.eqb] in WF; unfold plain, supd; cbn [String.eqb Ascii.eqb Bool.eqb negb].
+    + rewrite wsec_SHORT in W. destruct (short d) as [s|] eqn:SD; [|discriminate]. apply andb_prop in WF as [WF S0].
+      assert (E0 : short d0 = None) by (destruct (short d0); [discriminate|reflexivity]).
+      destruct (short_roundtrip T0 d s lines KS SD W d0 E0 WF) as [f [body [E R]]].
+      exists (header_of f), body. split; [exact E|]. split; [apply kwline_short|].
+      intros line rest LN. rewrite disp_SHORT. unfold lift. rewrite (R line rest LN). reflexivity.
+    + rewrite wsec_MESHM in W. apply andb_prop in WF as [WF E0]. apply andb_prop in WF as [NE WM].
+      assert (I0 : meshmaker d0 = []) by (destruct (meshmaker d0); [reflexivity|discriminate]).
+      destruct lines as [|l0 body]; [unfold write_meshmaker in W; destruct (meshmaker d); [discriminate|]; destruct (mapM _ _); discriminate|].
+      assert (l0 = kw "MESHMAKER").
+      { unfold write_meshmaker in W. destruct (meshmaker d); [discriminate|]. destruct (mapM _ _); cbn [bind] in W; [|discriminate]. inversion W; reflexivity. }
+      subst l0. exists (kw "MESHMAKER"), body. split; [reflexivity|]. split; [apply kwline_meshm|].
+      intros line rest _. rewrite disp_MESHM. unfold lift. rewrite (meshmaker_roundtrip T0 d body KM W WM d0 rest I0). reflexivity.
 Qed.
 Lemma end_facts e : is_end e = true ->
   strip (slice 0 5 (e +++ [nl])) = e /\ strip (slice 0 5 (padstring (e +++ [nl]))) = e /\ in_str e end_kws = true /\
@@ -403,7 +467,7 @@ Lemma loop_turn k d0 (next : option str) ls line r d1 look r' fuel :
   dispatch d0 k line r = Ok (d1, look, r') ->
   read_loop (S fuel) None d0 next ls = read_loop fuel None (push k d1) look r'.
 Proof.
-  intros IN XP EN [c [l NE]] KW DP. destruct (kw_facts k IN) as [_ [_ [F3 [F4 [F5 _]]]]].
+  intros IN XP EN [c [l NE]] KW DP. destruct (key_facts k IN) as [F3 [F4 F5]].
   cbn [read_loop]. rewrite EN. subst line. rewrite KW, F3, F4.
   unfold reader_name. rewrite XP. cbn [in_str existsb andb]. rewrite andb_false_r. rewrite F5.
   unfold dispatch in DP. rewrite DP. cbn [bind]. reflexivity.
@@ -431,8 +495,8 @@ Proof.
   - cbn in W. inv_ok W. exists (e +++ [nl]), []. split; [reflexivity|]. apply (end_facts e E).
   - cbn [map] in W. destruct (write_sections_cons _ _ _ _ W) as [a [b [Wa [Wb EQ]]]]. subst all.
     cbn [chain_ok] in C. apply andb_prop in C as [C _]. apply andb_prop in C as [IN WF]. apply covered_in in IN.
-    destruct (section_step k d d0 a IN Wa WF) as [body [EA _]]. subst a.
-    exists (kw k), ((body ++ b) ++ [e +++ [nl]])%list. split; [reflexivity|]. apply (kw_facts k IN).
+    destruct (section_step k d d0 a IN Wa WF) as [l0 [body [EA [KL _]]]]. subst a.
+    exists l0, ((body ++ b) ++ [e +++ [nl]])%list. split; [reflexivity|]. apply KL.
 Qed.
 
 Theorem loop_sections d e : is_end e = true -> forall ks d0 fuel all,
@@ -449,8 +513,7 @@ Proof.
       apply (loop_end d0 (Some (padstring (e +++ [nl]))) [] (padstring (e +++ [nl])) [] e fuel); [rewrite P; reflexivity|eauto|exact E2|exact E3].
   - cbn [map] in W. destruct (write_sections_cons _ _ _ _ W) as [a [b [Wa [Wb EQ]]]]. subst all.
     cbn [chain_ok] in C. apply andb_prop in C as [C CR]. apply andb_prop in C as [IN WF]. apply covered_in in IN.
-    destruct (section_step k d d0 a IN Wa WF) as [body [EA ST]]. subst a.
-    destruct (kw_facts k IN) as [F1 [F2 [_ [_ [_ [_ [F7 F8]]]]]]].
+    destruct (section_step k d d0 a IN Wa WF) as [l0 [body [EA [[F1 [F2 [_ [F7 F8]]]] ST]]]]. subst a.
     destruct fuel; [cbn in F; lia|]. cbn [length] in F.
     assert (XP' : xprec (push k (supd k d d0)) = []) by (rewrite xprec_supd; exact XP).
     assert (F' : (length r < fuel)%nat) by lia.
@@ -459,22 +522,22 @@ Proof.
     + (* a section that reads exactly its own lines *)
       destruct (IH (push k (supd k d d0)) fuel b Wb CR XP' F') as [IA _].
       split.
-      * rewrite (loop_turn k d0 None _ (kw k) ((body ++ b) ++ [e +++ [nl]])%list (supd k d d0) None (b ++ [e +++ [nl]])%list fuel IN XP); auto.
-        rewrite <- app_assoc. apply ST.
-      * intros l0 rest EQ. cbn [app] in EQ. inversion EQ; subst l0 rest. destruct F7 as [c [l P]].
-        rewrite (loop_turn k d0 (Some (padstring (kw k))) _ (padstring (kw k)) ((body ++ b) ++ [e +++ [nl]])%list (supd k d d0) None (b ++ [e +++ [nl]])%list fuel IN XP); auto.
+      * rewrite (loop_turn k d0 None _ l0 ((body ++ b) ++ [e +++ [nl]])%list (supd k d d0) None (b ++ [e +++ [nl]])%list fuel IN XP); auto.
+        rewrite <- app_assoc. apply ST. left. reflexivity.
+      * intros l1 rest EQ. cbn [app] in EQ. inversion EQ; subst l1 rest. destruct F7 as [c [l P]].
+        rewrite (loop_turn k d0 (Some (padstring l0)) _ (padstring l0) ((body ++ b) ++ [e +++ [nl]])%list (supd k d d0) None (b ++ [e +++ [nl]])%list fuel IN XP); auto.
         -- rewrite P. reflexivity.
         -- eauto.
-        -- rewrite <- app_assoc. apply ST.
+        -- rewrite <- app_assoc. apply ST. right. reflexivity.
     + (* PARAM: the next line comes back as look-ahead *)
       destruct (head_next d e E r (push k (supd k d d0)) b Wb CR) as [nextl [rest' [EQ NX]]].
       destruct (IH (push k (supd k d d0)) fuel b Wb CR XP' F') as [_ IB].
       specialize (IB nextl rest' EQ).
       split.
-      * rewrite (loop_turn k d0 None _ (kw k) ((body ++ b) ++ [e +++ [nl]])%list (supd k d d0) (Some (padstring nextl)) rest' fuel IN XP); auto.
+      * rewrite (loop_turn k d0 None _ l0 ((body ++ b) ++ [e +++ [nl]])%list (supd k d d0) (Some (padstring nextl)) rest' fuel IN XP); auto.
         rewrite <- app_assoc, EQ. apply ST. exact NX.
-      * intros l0 rest EQ0. cbn [app] in EQ0. inversion EQ0; subst l0 rest. destruct F7 as [c [l P]].
-        rewrite (loop_turn k d0 (Some (padstring (kw k))) _ (padstring (kw k)) ((body ++ b) ++ [e +++ [nl]])%list (supd k d d0) (Some (padstring nextl)) rest' fuel IN XP); auto.
+      * intros l1 rest EQ0. cbn [app] in EQ0. inversion EQ0; subst l1 rest. destruct F7 as [c [l P]].
+        rewrite (loop_turn k d0 (Some (padstring l0)) _ (padstring l0) ((body ++ b) ++ [e +++ [nl]])%list (supd k d d0) (Some (padstring nextl)) rest' fuel IN XP); auto.
         -- rewrite P. reflexivity.
         -- eauto.
         -- rewrite <- app_assoc, EQ. apply ST. exact NX.
@@ -512,7 +575,7 @@ Proof.
   induction ks as [|k r IH]; intros d0 all W C; [cbn; lia|].
   cbn [map] in W. destruct (write_sections_cons _ _ _ _ W) as [a [b [Wa [Wb EQ]]]]. subst all.
   cbn [chain_ok] in C. apply andb_prop in C as [C CR]. apply andb_prop in C as [IN WF]. apply covered_in in IN.
-  destruct (section_step k d d0 a IN Wa WF) as [body [EA _]]. subst a.
+  destruct (section_step k d d0 a IN Wa WF) as [l0 [body [EA _]]]. subst a.
   specialize (IH _ _ Wb CR). rewrite app_length. cbn [length]. lia.
 Qed.
 
@@ -545,7 +608,7 @@ Proof.
   intros W US SK XP EK TI CH.
   destruct (write_lines_shape d ls W US XP) as [all [WS EL]]. subst ls. rewrite SK in WS.
   pose proof tables_ok_true as TK. unfold tables_ok in TK.
-  apply andb_prop in TK as [TK _]. apply andb_prop in TK as [TK _]. apply andb_prop in TK as [_ K8]. unfold simul_table_ok in K8. apply andb_prop in K8 as [_ SHT].
+  apply andb_prop in TK as [TK _]. apply andb_prop in TK as [TK _]. apply andb_prop in TK as [TK _]. apply andb_prop in TK as [TK _]. apply andb_prop in TK as [_ K8]. unfold simul_table_ok in K8. apply andb_prop in K8 as [_ SHT].
   unfold title_ok in TI. apply andb_prop in TI as [NL LT]. apply Nat.leb_le in LT.
   unfold read_lines, read_files. cbn [f_main f_mesh f_pdat].
   unfold read_title. cbn [readline]. rewrite (line80 "title" _ SHT NL LT). fold (start_state d).
@@ -646,7 +709,7 @@ Proof.
   intros W US SK XP EK TI CH NE d2 WB WC.
   destruct (write_files_mesh_shape d d' fs W US XP) as [all [ml [WS [WM EF]]]]. subst fs. rewrite SK in WS.
   pose proof tables_ok_true as TK. unfold tables_ok in TK.
-  apply andb_prop in TK as [TK _]. apply andb_prop in TK as [TK _]. apply andb_prop in TK as [_ K8]. unfold simul_table_ok in K8. apply andb_prop in K8 as [_ SHT].
+  apply andb_prop in TK as [TK _]. apply andb_prop in TK as [TK _]. apply andb_prop in TK as [TK _]. apply andb_prop in TK as [TK _]. apply andb_prop in TK as [_ K8]. unfold simul_table_ok in K8. apply andb_prop in K8 as [_ SHT].
   unfold title_ok in TI. apply andb_prop in TI as [NL LT]. apply Nat.leb_le in LT.
   unfold read_files. cbn [f_main f_mesh f_pdat].
   unfold read_title. cbn [readline]. rewrite (line80 "title" _ SHT NL LT). fold (start_state d).
